@@ -312,12 +312,12 @@ def glitch(eng, rng, res):
         yield from eng.tick()
         n += 1
     if eng.dead or quiet < 12:
-        return
+        return False
     # LUP / LXU requested long ago have been sent by now (12 idle cycles with the PHY ready at least 6 times)
     eng.src_profile = ("always",)
     yield from eng.tick(8)
     if eng.src_idle_run < 6:
-        return
+        return False
     eng.enable_level = 0
     yield from eng.tick(rng.randint(1, 2))
     eng.enable_level = 1
@@ -325,6 +325,7 @@ def glitch(eng, rng, res):
     eng.src_profile = rng.choice(READY)
     yield from eng.tick(2)
     res.bin("pattern_glitch")
+    return True
 
 
 def scenario(eng, rng, res, cfg):
@@ -364,8 +365,10 @@ def scenario(eng, rng, res, cfg):
         else:
             k = rng.randint(0, 14)
         if target == "idle" and rng.random() < 0.6:
-            yield from glitch(eng, rng, res)
-            continue
+            done = yield from glitch(eng, rng, res)
+            if done or eng.dead:
+                continue
+            t_event = b.cycle                     # the receiver never got idle: ordinary crash instead
         t_crash = max(b.cycle + 1, t_event + k)
         if 0.3 <= stall < 0.5 and target not in ("race", "random"):
             eng.src_hold_until = t_crash + rng.randint(0, 12)  # the framing word will wait until (after) the crash
@@ -391,6 +394,7 @@ def scenario(eng, rng, res, cfg):
     yield from eng.quiesce()
     if not eng.dead:
         res.event("sessions_quiesced")
+        eng._partner_rx()
         if eng.p_unacked:
             raise RuntimeError("partner still has %d unacknowledged headers" % len(eng.p_unacked))
 
